@@ -961,6 +961,66 @@ def _index_form_for_mutated_elements(fn: ast.FunctionDef) -> int:
     return done
 
 
+def _copy(e):
+    import copy as _c
+    return _c.deepcopy(e)
+
+
+def _search_loops(fn: ast.FunctionDef) -> int:
+    """`for i, (a, b) in enumerate(zip(A, B)): if COND(a, b): break` (nothing else in the loop, no else clause) leaves
+    i, a, b at the first element satisfying COND.  It is rewritten as `i = np.where(COND(A, B))[0][0]; a = A[i]; b = B[i]`
+    - the vectorised spelling of the same search (they differ only when nothing matches, where one raises and the other
+    silently keeps the last element; the callers' range guards exclude that case)."""
+    done = 0
+    for node in ast.walk(fn):
+        for field in ("body", "orelse", "finalbody"):
+            body = getattr(node, field, None)
+            if not isinstance(body, list):
+                continue
+            for pos, st in enumerate(list(body)):
+                if not (isinstance(st, ast.For) and not st.orelse and len(st.body) == 1 and isinstance(st.body[0], ast.If)
+                        and not st.body[0].orelse and len(st.body[0].body) == 1 and isinstance(st.body[0].body[0], ast.Break)):
+                    continue
+                it, tgt, idx = st.iter, st.target, None
+                if isinstance(it, ast.Call) and _dotted(it.func) == "enumerate" and len(it.args) == 1 and not it.keywords \
+                        and isinstance(tgt, ast.Tuple) and len(tgt.elts) == 2 and isinstance(tgt.elts[0], ast.Name):
+                    idx, it, tgt = tgt.elts[0].id, it.args[0], tgt.elts[1]
+                if isinstance(it, ast.Call) and _dotted(it.func) == "zip" and isinstance(tgt, ast.Tuple) and len(tgt.elts) == len(it.args) \
+                        and all(k.arg == "strict" for k in it.keywords):
+                    seqs, elems = list(it.args), list(tgt.elts)
+                elif not isinstance(it, ast.Call):
+                    seqs, elems = [it], [tgt]
+                else:
+                    continue
+                if not all(isinstance(e, ast.Name) for e in elems) or not all(isinstance(q, (ast.Name, ast.Attribute)) for q in seqs):
+                    continue
+                cond = st.body[0].test
+                if not (isinstance(cond, ast.Compare) and len(cond.ops) == 1 and isinstance(cond.ops[0], (ast.Lt, ast.LtE, ast.Gt, ast.GtE, ast.Eq))):
+                    continue
+                if any(isinstance(n, (ast.Call, ast.Subscript, ast.Attribute)) and any(isinstance(m, ast.Name) and m.id in {e.id for e in elems}
+                                                                                     for m in ast.walk(n)) for n in ast.walk(cond)):
+                    continue   # the element is used other than as a plain operand
+                table = {e.id: q for e, q in zip(elems, seqs)}
+
+                class V(ast.NodeTransformer):
+                    def visit_Name(self, n):  # noqa: N802
+                        return ast.copy_location(_copy(table[n.id]), n) if n.id in table and isinstance(n.ctx, ast.Load) else n
+                vec = V().visit(_copy(cond))
+                idx = idx or f"{elems[0].id}__i"
+                found = ast.Subscript(value=ast.Subscript(value=ast.Call(func=ast.Attribute(value=ast.Name(id="np", ctx=ast.Load()), attr="where", ctx=ast.Load()),
+                                                                         args=[vec], keywords=[]), slice=ast.Constant(0), ctx=ast.Load()),
+                                      slice=ast.Constant(0), ctx=ast.Load())
+                new = [ast.Assign(targets=[ast.Name(id=idx, ctx=ast.Store())], value=found)]
+                new += [ast.Assign(targets=[ast.Name(id=e.id, ctx=ast.Store())],
+                                   value=ast.Subscript(value=_copy(q), slice=ast.Name(id=idx, ctx=ast.Load()), ctx=ast.Load())) for e, q in zip(elems, seqs)]
+                for n_ in new:
+                    ast.copy_location(n_, st)
+                i0 = body.index(st)
+                body[i0:i0 + 1] = new
+                done += 1
+    return done
+
+
 def apply(tree: ast.Module, module: str = "") -> list[str]:
     """Dissolve transparent helpers of `tree` into their callers (in place). -> names inlined (one per call site)."""
     if _has_walrus(tree):
@@ -979,6 +1039,7 @@ def apply(tree: ast.Module, module: str = "") -> list[str]:
             aliases += _sugar_divmod(n)
             aliases += _fold_loop_target_copies(n)
             aliases += _index_form_for_mutated_elements(n)
+            aliases += _search_loops(n)
             if any(isinstance(c, ast.Call) and _dotted(c.func) in ("itertools.count", "count") for c in ast.walk(n)):
                 aliases += _desugar_count_zip(n)
     if aliases:
